@@ -61,7 +61,7 @@ func (s *syn) docOpt(label string) {
 	if s.pick(label+"_hd", 3) == 0 {
 		docs := []string{"`d`", "``", "`消息`", "`// c`", "`a , b`", "` lead`", "`50% of %v`", "`tab\tinside`"}
 		if !s.cfg.avoid("doc:multiline") {
-			docs = append(docs, "`two\nlines`")
+			docs = append(docs, "`two\nlines`", "`first\n    indented\n\nafter blank`", "`a \"quote\nb // no comment\n`", "`\nleading break`", "`tab\n\tline`", "`cr\r\nlf`")
 		}
 		s.r.emit(rapid.SampledFrom(docs).Draw(s.t, label+"_doc"))
 	}
